@@ -254,12 +254,14 @@ where
         let mut data = self.data.try_borrow_mut().map_err(|_| Error::LockError)?;
         let data = data.deref_mut();
 
+        // Find dir by ID - a closed handle is a bad handle, however full the
+        // table is
+        let parent_dir_idx = data.get_dir_by_id(parent_dir)?;
+
         if data.open_dirs.is_full() {
             return Err(Error::TooManyOpenDirs);
         }
 
-        // Find dir by ID
-        let parent_dir_idx = data.get_dir_by_id(parent_dir)?;
         let volume_idx = data.get_volume_by_id(data.open_dirs[parent_dir_idx].raw_volume)?;
         let short_file_name = name.to_short_filename().map_err(Error::FilenameError)?;
 
@@ -484,12 +486,14 @@ where
         let mut data = self.data.try_borrow_mut().map_err(|_| Error::LockError)?;
         let data = data.deref_mut();
 
+        // A closed handle is a bad handle, however full the table is
+        let directory_idx = data.get_dir_by_id(directory)?;
+
         // This check is load-bearing - we do an unchecked push later.
         if data.open_files.is_full() {
             return Err(Error::TooManyOpenFiles);
         }
 
-        let directory_idx = data.get_dir_by_id(directory)?;
         let volume_id = data.open_dirs[directory_idx].raw_volume;
         let volume_idx = data.get_volume_by_id(volume_id)?;
         let volume_info = &data.open_volumes[volume_idx];
@@ -1042,11 +1046,8 @@ where
         let mut data = self.data.try_borrow_mut().map_err(|_| Error::LockError)?;
         let data = data.deref_mut();
 
-        // This check is load-bearing - we do an unchecked push later.
-        if data.open_dirs.is_full() {
-            return Err(Error::TooManyOpenDirs);
-        }
-
+        // Making a directory opens none, so the number of open directories
+        // does not matter here.
         let parent_directory_idx = data.get_dir_by_id(directory)?;
         let parent_directory_info = &data.open_dirs[parent_directory_idx];
         let volume_id = data.open_dirs[parent_directory_idx].raw_volume;
